@@ -40,18 +40,21 @@ def macro_cases(rng, _n):
     k = 0
     meanings = "(meanings (v %s (int 3)) (v %s (int 5)) (v %s (int 1)) (v %s (int 7)) (r %s (int 1) (int 3) true) (r %s (int 5) none false) (r %s (int 1) (int 3) false))" % (
         tgen.hexs("3"), tgen.hexs("5"), tgen.hexs("1"), tgen.hexs("7"), tgen.hexs("1..=3"), tgen.hexs("5.."), tgen.hexs("1..3"))
-    multisets = [[3, 1], [1, 3], [7, 3, 1], [1, 2, 7], [7, 2, 1], [2, 7, 1], [6, 6], [3], [], [3, 3, 9], [9, 3, 3], [1, 3, 7, 9]]
+    multisets = [[3, 1], [1, 3], [7, 3, 1], [1, 2, 7], [7, 2, 1], [2, 7, 1], [6, 6], [3], [], [3, 3, 9], [9, 3, 3], [1, 3, 7, 9], [0, 7, 9], [3, 0, 1, 0, 0, 7], [7, 8, 9, 6, 1], [1, 8, 3, 9]]
+    # deterministic: every pattern list of length 1 and 2 over the whole palette, every list of length 3 over four patterns of different
+    # behaviour (a sample that changes with the generator's random stream once let a seeded change slip back out of reach)
     combos = []
-    for n in (1, 2, 3):
+    for n in (1, 2):
         for c in itertools.product(range(len(ELEM_PATS)), repeat=n):
             combos.append(list(c))
-    rng.shuffle(combos)
-    for c in combos[:110]:
+    for c in itertools.product((0, 1, 2, 4), repeat=3):
+        combos.append(list(c))
+    for c in combos:
         for rest in (False, True):
             for val in multisets:
-                if not rest and len(val) != len(c) and rng.random() < 0.7:
-                    continue
-                if rest and len(val) < len(c) and rng.random() < 0.7:
+                if not rest and len(val) != len(c) and (len(val) + len(c)) % 3 != 0:
+                    continue       # a deterministic third of the length failures
+                if rest and len(val) < len(c) and (len(val) + len(c)) % 3 != 0:
                     continue
                 pat = "#(%s%s)" % (", ".join(ELEM_PATS[i][0] for i in c), (", .." if c else "..") if rest else "")
                 case = t3.Case()
